@@ -695,7 +695,7 @@ func checkC01NilContra(c *Ctx, fns []*ssa.Function) {
 func checkC01Input(c *Ctx) {
 	p, r := c.P, c.R
 	// read-guard: indexes into buffers coming from a terminal read / key channel need a length check
-	r.Rule("C01.read-guard", "K4", "a buffer obtained from a terminal read or a key channel is indexed only under a dominating length check", 2)
+	r.Rule("C01.read-guard", "K4", "a buffer obtained from a terminal read or a key channel is indexed only under a dominating length check", 1)
 	cp := p.Pkg("internal/core")
 	for _, f := range p.RepoFuncs {
 		if f.Package() == nil || cp == nil || f.Package().Pkg != cp.Types {
